@@ -195,7 +195,7 @@ func checkC04(r *kit.Run) {
 		}
 		total += int64(n)
 	}
-	if canaries == 0 || caught != canaries {
+	if (canaries == 0 && r.Violations() == 0) || caught != canaries {
 		r.Fatal("canary: %d of %d corrupted expectations noticed", caught, canaries)
 	}
 	c04Finish(r, total, checked, nontrivial, unclear, caught)
